@@ -536,6 +536,63 @@ func ruleWF1(c *Ctx) {
 		c.check(set.IsValid() && rec.IsValid() && clr.IsValid() && set < rec && rec < clr, rule, "ast.MacroRule.NFACons/cycle-flag", p.Pos(fd.Pos()),
 			"the in-expansion flag is set before and cleared after the recursive expansion", "the macro cycle flag is not set before and cleared after the recursive expansion")
 	}
+	// ... and a cycle is looked for at every macro *declaration*: NFACons only runs for macros some
+	// rule uses, so a cycle among unused macros would be accepted. Wanted: an error logged from the
+	// declaration's own pass (MacroRule.RunPass or a helper it calls) under a condition that walks
+	// the resolved references (reads LexerTermRef's macro field).
+	if mpk, mfd := p.FuncDecl("internal/ast", "MacroRule.RunPass"); mfd != nil {
+		minfo := mpk.TypesInfo
+		readsRefs := func(fn ast.Node, depth int) bool { return false }
+		var seenFn map[ast.Node]bool
+		readsRefs = func(fn ast.Node, depth int) bool {
+			if fn == nil || depth > 4 || seenFn[fn] {
+				return false
+			}
+			seenFn[fn] = true
+			found := false
+			ast.Inspect(fn, func(m ast.Node) bool {
+				if found {
+					return false
+				}
+				switch x := m.(type) {
+				case *ast.SelectorExpr:
+					if fv, _ := selField(minfo, x); fv != nil && typeIs(fv.Type(), "internal/ast", "MacroRule") {
+						if owner, _ := minfo.Selections[x]; owner != nil && typeIs(owner.Recv(), "internal/ast", "LexerTermRef") {
+							found = true
+						}
+					}
+				case *ast.CallExpr:
+					if callee := calleeFunc(minfo, x); callee != nil && callee.Pkg() == mpk.Types {
+						if hd := p.funcDecls[callee.Origin()]; hd != nil && readsRefs(hd, depth+1) {
+							found = true
+						}
+					}
+				}
+				return true
+			})
+			return found
+		}
+		okDecl := false
+		for _, sc := range funcScope(p, mpk, mfd, 2) {
+			spar := parents(sc.node)
+			ast.Inspect(sc.node, func(m ast.Node) bool {
+				call, ok := m.(*ast.CallExpr)
+				if !ok || !isErrLoggerMethod(calleeFunc(minfo, call)) {
+					return true
+				}
+				for _, fct := range pathConds(minfo, spar, call) {
+					seenFn = map[ast.Node]bool{}
+					if readsRefs(fct.e, 0) {
+						okDecl = true
+					}
+				}
+				return true
+			})
+		}
+		c.check(okDecl, rule, "ast.MacroRule.RunPass/cycle-checked-at-declaration", p.Pos(mfd.Pos()),
+			"every macro declaration is checked for a reference cycle in its own pass (an error is logged under a condition that walks the resolved macro references)",
+			"a macro cycle is only detected while a macro is expanded for a rule (NFACons): a cycle among macros no token or fragment uses is accepted ('@macro A = B  @macro B = A')")
+	}
 }
 
 func checkAliasCondition(c *Ctx, rule string) {
